@@ -178,6 +178,33 @@ pub enum GrpcForm {
     TrailersOnly,
 }
 
+/// Where in its response the collector stops and stalls (with the connection left open).
+#[derive(Clone, Copy, Debug, PartialEq, Eq, Hash)]
+pub enum Phase {
+    /// HTTP/1: in the middle of the response head (`HTTP/1.1 200 OK\r\nContent-Le`). gRPC: like `AfterHeaders`
+    InHead,
+    /// HTTP/1: after a complete head announcing a body (`Content-Length: 64`), before the body.
+    /// gRPC: after the response HEADERS frame (`:status 200`, content-type), no message, no trailers
+    AfterHeaders,
+    /// HTTP/1: after 10 of the 64 body bytes. gRPC: after 3 of the 5 bytes of the message prefix
+    InBody,
+    /// gRPC: after a complete (empty) response message, before the trailers. HTTP/1: like `InBody`
+    BeforeTrailers,
+}
+
+impl Phase {
+    pub const ALL: [Phase; 4] = [Phase::InHead, Phase::AfterHeaders, Phase::InBody, Phase::BeforeTrailers];
+
+    pub fn name(self) -> &'static str {
+        match self {
+            Phase::InHead => "in-head",
+            Phase::AfterHeaders => "after-headers",
+            Phase::InBody => "in-body",
+            Phase::BeforeTrailers => "before-trailers",
+        }
+    }
+}
+
 /// What the collector does with one request.
 #[derive(Clone, Copy, Debug, PartialEq, Eq, Hash)]
 pub enum Decision {
@@ -193,6 +220,9 @@ pub enum Decision {
     GrpcStatus(u32, GrpcForm),
     /// read the body, never answer (the connection stays open until the peer gives up)
     Stall,
+    /// read the body, begin a response (HTTP/1: with this status; gRPC: always `:status 200`), stop at
+    /// the given phase and stall with the connection open
+    StallAt(Phase, u16),
     /// close a *new* connection without reading anything (on an established connection: like `DropBeforeBody`)
     DropOnAccept,
     /// reset the connection after the request head, before reading the body
@@ -214,8 +244,28 @@ impl Decision {
     pub fn breaks_connection(self) -> bool {
         matches!(
             self,
-            Decision::Stall | Decision::DropOnAccept | Decision::DropBeforeBody | Decision::DropAfterRead
+            Decision::Stall | Decision::StallAt(..) | Decision::DropOnAccept | Decision::DropBeforeBody | Decision::DropAfterRead
         )
+    }
+
+    /// Any of the decisions that leave the request hanging.
+    pub fn is_stall(self) -> bool {
+        matches!(self, Decision::Stall | Decision::StallAt(..))
+    }
+
+    /// The phase name for signatures (`no-response` for a plain stall).
+    pub fn stall_phase(self) -> Option<&'static str> {
+        match self {
+            Decision::Stall => Some("no-response"),
+            Decision::StallAt(p, _) => Some(p.name()),
+            _ => None,
+        }
+    }
+
+    /// A stalled HTTP/1 response whose complete head carried a 2xx status: the statement does not
+    /// settle whether that is an acknowledgement (the emitter has seen the 2xx) or a timeout.
+    pub fn http1_2xx_head_then_stall(self) -> bool {
+        matches!(self, Decision::StallAt(p, c) if p != Phase::InHead && (200..300).contains(&c))
     }
 
     pub fn reads_body(self) -> bool {
@@ -232,6 +282,7 @@ impl Decision {
             Decision::GrpcStatus(c, GrpcForm::Trailers) => format!("grpc{}", c),
             Decision::GrpcStatus(c, GrpcForm::TrailersOnly) => format!("grpc{}-trailers-only", c),
             Decision::Stall => "stall".into(),
+            Decision::StallAt(p, c) => format!("stall-{}-{}", p.name(), c),
             Decision::DropOnAccept => "drop-on-accept".into(),
             Decision::DropBeforeBody => "drop-before-body".into(),
             Decision::DropAfterRead => "drop-after-read".into(),
@@ -246,6 +297,10 @@ impl Decision {
             Decision::GrpcStatus(_, GrpcForm::Trailers) => "grpc-status",
             Decision::GrpcStatus(_, GrpcForm::TrailersOnly) => "grpc-status-trailers-only",
             Decision::Stall => "stall",
+            Decision::StallAt(Phase::InHead, _) => "stall-in-head",
+            Decision::StallAt(Phase::AfterHeaders, _) => "stall-after-headers",
+            Decision::StallAt(Phase::InBody, _) => "stall-in-body",
+            Decision::StallAt(Phase::BeforeTrailers, _) => "stall-before-trailers",
             Decision::DropOnAccept => "drop-on-accept",
             Decision::DropBeforeBody => "drop-before-body",
             Decision::DropAfterRead => "drop-after-read",
@@ -284,6 +339,8 @@ pub struct Record {
     pub responding: Option<u64>,
     /// taken after the response was written (HTTP/1: `write_all` + `flush` returned; h2: queued)
     pub responded: Option<u64>,
+    /// `StallAt`: the partial response was written (stamp after the write)
+    pub partial_written: Option<u64>,
     /// the collector is finished with the request (answered, dropped, or the peer went away)
     pub done: Option<u64>,
     /// the peer closed / reset while the request was unanswered
@@ -297,7 +354,13 @@ impl Record {
 
     /// A success response was written for this request.
     pub fn acked(&self) -> bool {
-        self.decision.is_ack() && self.responded.is_some()
+        (self.decision.is_ack() && self.responded.is_some()) || self.acked_by_status_line()
+    }
+
+    /// HTTP/1 only: a complete response head with a 2xx status was written, then the body stalled.
+    /// Counted as an acknowledgement (the peer has the 2xx); whether the peer also retries is left open.
+    pub fn acked_by_status_line(&self) -> bool {
+        self.wire == Wire::Http1 && self.decision.http1_2xx_head_then_stall() && self.partial_written.is_some()
     }
 
     /// The signal the *path* denotes.
@@ -328,7 +391,7 @@ impl Record {
             "endpoint": self.endpoint.name(), "seq": self.seq, "conn": self.conn, "path": self.path,
             "decision": self.decision.name(), "wire_len": self.wire_len, "gzip": self.gzip,
             "body_len": self.body.as_ref().map(|b| b.len()), "note": self.note, "io_note": self.io_note,
-            "received": self.received, "responding": self.responding, "responded": self.responded,
+            "received": self.received, "responding": self.responding, "responded": self.responded, "partial_written": self.partial_written, "done": self.done,
             "peer_gone": self.peer_gone,
         })
     }
@@ -562,6 +625,8 @@ pub struct EndpointCfg {
 }
 
 struct ScriptState {
+    /// while set, every request gets this decision and the script is left alone
+    repeat: Option<Decision>,
     script: VecDeque<Decision>,
     seq: usize,
     consumed_faults: usize,
@@ -579,7 +644,10 @@ struct Endpoint {
 impl Endpoint {
     fn next_decision(&self, new_connection: bool) -> (usize, Decision) {
         let mut s = self.script.lock().unwrap();
-        let mut d = s.script.pop_front().unwrap_or(Decision::Ack(200));
+        let mut d = match s.repeat {
+            Some(d) => d,
+            None => s.script.pop_front().unwrap_or(Decision::Ack(200)),
+        };
         if d == Decision::DropOnAccept && !new_connection {
             d = Decision::DropBeforeBody;
         }
@@ -593,8 +661,11 @@ impl Endpoint {
 
     fn take_drop_on_accept(&self) -> Option<usize> {
         let mut s = self.script.lock().unwrap();
-        if s.script.front() == Some(&Decision::DropOnAccept) {
-            s.script.pop_front();
+        let head = s.repeat.or_else(|| s.script.front().copied());
+        if head == Some(Decision::DropOnAccept) {
+            if s.repeat.is_none() {
+                s.script.pop_front();
+            }
             let seq = s.seq;
             s.seq += 1;
             s.consumed_faults += 1;
@@ -674,6 +745,7 @@ impl Shared {
                 body_read: None,
                 responding: None,
                 responded: None,
+                partial_written: None,
                 done: None,
                 peer_gone: false,
             });
@@ -743,7 +815,7 @@ impl Collector {
                 wire: cfg.wire,
                 port,
                 bound: Mutex::new(Some(fd)),
-                script: Mutex::new(ScriptState { script: cfg.script.into(), seq: 0, consumed_faults: 0 }),
+                script: Mutex::new(ScriptState { repeat: None, script: cfg.script.into(), seq: 0, consumed_faults: 0 }),
             }));
             if cfg.listen {
                 Self::listen_on(&shared, endpoints.last().unwrap());
@@ -787,6 +859,20 @@ impl Collector {
         match ep.wire {
             Wire::Http1 => format!("http://127.0.0.1:{}{}", ep.port, s.http_path()),
             Wire::Grpc => format!("http://127.0.0.1:{}", ep.port),
+        }
+    }
+
+    /// While `Some`, every request on this endpoint gets that decision (the script is kept for later).
+    pub fn set_repeat(&self, s: Signal, d: Option<Decision>) {
+        if let Some(ep) = self.endpoint(s) {
+            ep.script.lock().unwrap().repeat = d;
+        }
+    }
+
+    /// Append decisions to the endpoint's script.
+    pub fn push_script(&self, s: Signal, ds: &[Decision]) {
+        if let Some(ep) = self.endpoint(s) {
+            ep.script.lock().unwrap().script.extend(ds.iter().copied());
         }
     }
 
@@ -839,7 +925,8 @@ impl Collector {
     /// ("about to write" stamped, "written" not yet). The peer can see a response before the task
     /// that wrote it gets to note that it did. Call this before taking the records to judge them.
     pub fn settle(&self) -> bool {
-        self.wait_until(Duration::from_secs(5), |recs| recs.iter().all(|r| r.responding.is_none() || r.done.is_some()))
+        // (a response that was begun only to hang is never going to be "written")
+        self.wait_until(Duration::from_secs(5), |recs| recs.iter().all(|r| r.decision.is_stall() || r.responding.is_none() || r.done.is_some()))
     }
 
     pub fn shutdown(&self) {
@@ -1019,6 +1106,32 @@ async fn serve_http1(shared: Arc<Shared>, ep: Arc<Endpoint>, mut stream: TcpStre
             // never answered: keep reading, so that the peer's close - or a request wrongly sent on
             // this abandoned connection - is seen
             Decision::Stall => continue,
+            Decision::StallAt(phase, status) => {
+                let head = format!(
+                    "HTTP/1.1 {} {}\r\nContent-Type: {}\r\nContent-Length: 64\r\n\r\n",
+                    status,
+                    reason(status),
+                    if is_json { "application/json" } else { "application/x-protobuf" }
+                );
+                let mut out = head.into_bytes();
+                match phase {
+                    Phase::InHead => out.truncate(27.min(out.len())),
+                    Phase::AfterHeaders => {}
+                    Phase::InBody | Phase::BeforeTrailers => out.extend_from_slice(b"{\"partial"),
+                }
+                shared.update(idx, |r| r.responding = Some(stamp()));
+                let res = async {
+                    stream.write_all(&out).await?;
+                    stream.flush().await
+                }
+                .await;
+                match res {
+                    Ok(()) => shared.update(idx, |r| r.partial_written = Some(stamp())),
+                    Err(e) => shared.update(idx, |r| r.io_note = Some(format!("writing the partial response failed: {}", e))),
+                }
+                // and nothing more: keep reading like a plain stall
+                continue;
+            }
             Decision::HoldAck(max) => {
                 wait_gate(&shared, max).await;
                 200
@@ -1182,6 +1295,34 @@ async fn handle_h2(
             tokio::select! {
                 _ = shutdown.changed() => {}
                 _ = std::future::poll_fn(|cx| respond.poll_reset(cx)) => {}
+            }
+            shared.update(idx, |r| {
+                r.done = Some(stamp());
+                r.peer_gone = true;
+            });
+            return;
+        }
+        Decision::StallAt(phase, _) => {
+            shared.update(idx, |r| r.responding = Some(stamp()));
+            let started = (|| {
+                let mut send = respond.send_response(grpc_response(http::StatusCode::OK), false)?;
+                match phase {
+                    Phase::InHead | Phase::AfterHeaders => {}
+                    Phase::InBody => send.send_data(bytes::Bytes::from_static(&[0, 0, 0]), false)?,
+                    Phase::BeforeTrailers => send.send_data(bytes::Bytes::from_static(&[0, 0, 0, 0, 0]), false)?,
+                }
+                Ok::<_, h2::Error>(send)
+            })();
+            match started {
+                Ok(mut send) => {
+                    shared.update(idx, |r| r.partial_written = Some(stamp()));
+                    // hold the stream open until the peer resets it (its timeout) or the scenario ends
+                    tokio::select! {
+                        _ = shutdown.changed() => {}
+                        _ = std::future::poll_fn(|cx| send.poll_reset(cx)) => {}
+                    }
+                }
+                Err(e) => shared.update(idx, |r| r.io_note = Some(format!("sending the partial response failed: {}", e))),
             }
             shared.update(idx, |r| {
                 r.done = Some(stamp());
